@@ -491,6 +491,15 @@ def chain(draw, lid, direction, eq_json, spans=(1, 3), fused=True, user_amps=Tru
             f['operational'] = {'temperature': 283, 'raman_pumps': [
                 {'power': draw(st.sampled_from([0.2, 0.25])), 'frequency': 205e12, 'propagation_direction': 'counterprop'},
                 {'power': draw(st.sampled_from([0.2, 0.3])), 'frequency': 201e12, 'propagation_direction': 'counterprop'}]}
+            low = draw(st.integers(0, 5))
+            if low in (0, 1):
+                # a pump below the carriers (the carriers then sit on the anti-Stokes side of that pump)
+                f['operational']['raman_pumps'].append({'power': draw(st.sampled_from([0.05, 0.1])), 'frequency': 188e12,
+                                                        'propagation_direction': 'counterprop'})
+            elif low == 2:
+                # only such a pump: no Raman gain for the carriers, which feed the pump instead
+                f['operational']['raman_pumps'] = [{'power': draw(st.sampled_from([0.1, 0.2])), 'frequency': 188e12,
+                                                    'propagation_direction': 'counterprop'}]
         els.append(f)
         if k < n - 1:
             j = draw(st.sampled_from(['amp', 'amp', 'none', 'fused'] if (fused and user_amps) else
